@@ -102,7 +102,8 @@ def run_op(op):
     k = op[0]
     try:
         if k == "parse":
-            m = pyubx2.UBXReader.parse(bytes(op[1]), msgmode=op[2], parsebitfield=op[3])
+            m = pyubx2.UBXReader.parse(bytes(op[1]), msgmode=op[2], parsebitfield=op[3],
+                                       validate=op[4] if len(op) > 4 else 1)
             return "ok:" + m.serialize().hex() + "|" + str(m) + "|" + repr(m) + "|" + repr(C.public_attrs(m))
         if k == "build-payload":
             m = pyubx2.UBXMessage(bytes(op[1])[0:1], bytes(op[1])[1:2], op[2], payload=bytes(op[3]))
@@ -533,6 +534,38 @@ def sibling_ops(draw):
     sibs = [x for x in targets if x.clsid == t.clsid]
     order = draw(st.permutations(sibs))
     return [draw(op_for_target(x, kinds=("parse", "parse", "build-payload"))) for x in order[:4]]
+
+
+def related_history(case):
+    """Strategy of operation lists related to a case: operations on every mode /
+    variant of the case's class/ID (intact, damaged + VALNONE, SETPOLL, failing
+    keyword constructions) mixed with unrelated ones."""
+    targets = C.cat()[0]
+    clsid = None
+    if isinstance(case, dict) and case.get("clsid") is not None:
+        clsid = bytes(case["clsid"])
+    sibs = [t for t in targets if t.clsid == clsid] if clsid else []
+
+    @st.composite
+    def one(draw):
+        if sibs and draw(st.integers(0, 3)) != 0:
+            t = sibs[draw(st.integers(0, len(sibs) - 1))]
+            op = draw(op_for_target(t))
+            if op[0] == "parse" and draw(st.booleans()):
+                fr = bytes(op[1])
+                dmg = draw(st.sampled_from(["cut", "extend", "flip", "none"]))
+                if dmg == "cut" and len(fr) > 3:
+                    fr = fr[: draw(st.integers(4, len(fr) - 1)) if len(fr) > 5 else len(fr) - 1]
+                elif dmg == "extend":
+                    fr = fr + draw(st.binary(min_size=1, max_size=4))
+                elif dmg == "flip" and len(fr) > 8:
+                    i = draw(st.integers(6, len(fr) - 1))
+                    fr = fr[:i] + bytes([fr[i] ^ 0x41]) + fr[i + 1:]
+                return ["parse", fr, draw(st.sampled_from([t.mode, 3, 3])), op[3], 0]
+            return op
+        return draw(any_op())
+
+    return st.lists(one(), min_size=1, max_size=4)
 
 
 def alias_items():
